@@ -39,10 +39,15 @@ def run_property(pid: str, repo_root: Path, tier: str, seed: int, quiet: bool = 
     try:
         repo = Repo(repo_root)
         mod.run(repo, tier, res, seed)
-        # fail closed on instance floors
+        # fail closed on instance floors -- unless a violation was found anyway (a positive report stands on its own)
         for rule, (n, floor) in res.counts.items():
             if n < floor:
-                raise AnalysisError(f"rule {rule} matched {n} instances, fewer than the confirmed floor {floor}")
+                floor_msg = f"rule {rule} matched {n} instances, fewer than the confirmed floor {floor}"
+                known0 = load_known_findings()
+                if any(match_known(f, known0) is None for f in res.findings):
+                    say(f"  warning: {floor_msg}")
+                else:
+                    raise AnalysisError(floor_msg)
     except AnalysisError as e:
         say(f"ANALYSIS-ERROR property={pid} {e}")
         return 2, [], res, out
